@@ -23,9 +23,13 @@ def cfg(mode, emit=True, dev="{}", live=True):
 
 
 def describe(meta):
+    return _describe(meta)
+
+
+def _describe(meta):
     cs = [c for f in meta["files"] for c in f]
     return "pkg %s, ann %s, containers %s" % (meta["pkg"], {k: v for k, v in meta["ann"].items() if v},
-                                              ["%s/%s/%s/%s%s" % (c["kind"], c["stmt"], c["nest"], c["sp"], "" if c["ptr"] else "/val") for c in cs])
+                                              ["%s/%s/%s/%s%s" % (c["kind"], c["stmt"], c["nest"], c["sp"], "" if c.get("ptr", True) else "/val") for c in cs])
 
 
 def nonvacuous(ctx, module, devs, cfgfn):
